@@ -18,7 +18,13 @@ package main
 //     package-level string / int constants are replaced by their value; len("lit") is folded;
 //   * control flow is normalised to a sequence of guarded exits: `if C { return … }`, if / else-if chains, inverted
 //     `if C { … } else { return … }`, tag and tag-less switches; `a || b` in one guard and consecutive guards with the
-//     same kind of exit are the same thing (the set / sequence of or-leaves); `!(a && b)` is `!a || !b`.
+//     same kind of exit are the same thing (the set / sequence of or-leaves); `!(a && b)` is `!a || !b`; one clause of a
+//     tag switch may be a longer block that always returns (`switch T { case A: return a; case B: <block>; default: return d }`
+//     is `if T == A { return a }; if T != B { return d }; <block>`);
+//   * `T, ok := strings.CutPrefix(S, LIT)` is strings.HasPrefix(S, LIT) and (under ok) S[len(LIT):]; `A, B, F := strings.Cut(S, SEP)`
+//     is strings.Split(S, SEP)[0], the text behind the first SEP and strings.Contains(S, SEP);
+//   * the IPv6 tag of ValidateDomainPart is found by a small symbolic evaluation (vtEval) of the statements in front of
+//     net.ParseIP, in ValidateDomainPart or the unexported helper it hands its parameter to.
 // Every fact whose code shape is not recognised is emitted as none / false / a text no tie theorem accepts.
 
 import (
@@ -291,6 +297,25 @@ type addrAliasDef struct {
 	rhs  ast.Expr
 	pos  token.Pos
 	free []string
+	// only: when set, the alias stands for rhs only at positions inside one of these ranges (result 0 of
+	// strings.CutPrefix is the tail only where result 1 is known to be true)
+	restricted bool
+	only       [][2]token.Pos
+}
+
+func (a *addrAliasDef) validAt(at token.Pos) bool {
+	if at <= a.pos {
+		return false
+	}
+	if !a.restricted {
+		return true
+	}
+	for _, r := range a.only {
+		if r[0] <= at && at < r[1] {
+			return true
+		}
+	}
+	return false
 }
 
 // addrEnv: how the identifiers of one function are printed.
@@ -342,7 +367,7 @@ func addrNewEnv(p *addrPkg, fd *ast.FuncDecl) *addrEnv {
 			e.assigns[id.Name] = append(e.assigns[id.Name], at)
 		}
 	}
-	var cands []*ast.AssignStmt
+	var cands, cuts []*ast.AssignStmt
 	ast.Inspect(fd.Body, func(n ast.Node) bool {
 		switch v := n.(type) {
 		case *ast.AssignStmt:
@@ -351,6 +376,9 @@ func addrNewEnv(p *addrPkg, fd *ast.FuncDecl) *addrEnv {
 			}
 			if v.Tok == token.DEFINE && len(v.Lhs) == 1 && len(v.Rhs) == 1 {
 				cands = append(cands, v)
+			}
+			if v.Tok == token.DEFINE && (len(v.Lhs) == 2 || len(v.Lhs) == 3) && len(v.Rhs) == 1 {
+				cuts = append(cuts, v)
 			}
 		case *ast.IncDecStmt:
 			note(v.X, v.Pos())
@@ -378,6 +406,7 @@ func addrNewEnv(p *addrPkg, fd *ast.FuncDecl) *addrEnv {
 		}
 		return true
 	})
+	e.cutAliases(cuts)
 	for _, as := range cands {
 		id, ok := as.Lhs[0].(*ast.Ident)
 		if !ok || id.Name == "_" || len(e.assigns[id.Name]) != 1 || e.subst[id.Name] != "" {
@@ -388,6 +417,109 @@ func addrNewEnv(p *addrPkg, fd *ast.FuncDecl) *addrEnv {
 		}
 	}
 	return e
+}
+
+// cutAliases: `T, OK := strings.CutPrefix(S, LIT)` (both defined here and never written again, LIT a string literal or
+// constant) is the Go 1.20 spelling of `strings.HasPrefix(S, LIT)` and `S[len(LIT):]`: OK is printed as the former
+// everywhere, T as the latter inside the body of an `if OK { … }` (elsewhere T keeps its name, which no tie accepts).
+func (e *addrEnv) cutAliases(cuts []*ast.AssignStmt) {
+	for _, as := range cuts {
+		ce, ok := as.Rhs[0].(*ast.CallExpr)
+		if !ok || len(ce.Args) != 2 {
+			continue
+		}
+		se, ok := ce.Fun.(*ast.SelectorExpr)
+		if !ok || (se.Sel.Name != "CutPrefix" && se.Sel.Name != "Cut") {
+			continue
+		}
+		pk, ok := se.X.(*ast.Ident)
+		if !ok || e.imports[pk.Name] != "strings" || e.isLocal(pk) {
+			continue
+		}
+		if se.Sel.Name == "Cut" {
+			e.cutAlias3(as, ce, pk)
+			continue
+		}
+		if len(as.Lhs) != 2 {
+			continue
+		}
+		lit := e.constLit(ce.Args[1])
+		if lit == nil || lit.Kind != token.STRING || !e.pure(ce.Args[0]) {
+			continue
+		}
+		text, err := strconv.Unquote(lit.Value)
+		if err != nil {
+			continue
+		}
+		tail, ok0 := as.Lhs[0].(*ast.Ident)
+		found, ok1 := as.Lhs[1].(*ast.Ident)
+		if !ok0 || !ok1 || found.Name == "_" || len(e.assigns[found.Name]) != 1 || e.subst[found.Name] != "" {
+			continue
+		}
+		free := addrFreeIdents(ce.Args[0])
+		e.alias[found.Name] = &addrAliasDef{pos: as.Pos(), free: free,
+			rhs: &ast.CallExpr{Fun: &ast.SelectorExpr{X: pk, Sel: ast.NewIdent("HasPrefix")}, Args: []ast.Expr{ce.Args[0], ce.Args[1]}}}
+		if tail.Name == "_" || len(e.assigns[tail.Name]) != 1 || e.subst[tail.Name] != "" {
+			continue
+		}
+		def := &addrAliasDef{pos: as.Pos(), free: free, restricted: true,
+			rhs: &ast.SliceExpr{X: ce.Args[0], Low: &ast.BasicLit{Kind: token.INT, Value: strconv.Itoa(len(text))}}}
+		isFound := func(x ast.Expr) bool {
+			id, ok := addrStrip(x).(*ast.Ident)
+			return ok && id.Name == found.Name
+		}
+		ast.Inspect(e.fd.Body, func(n ast.Node) bool {
+			switch v := n.(type) {
+			case *ast.IfStmt:
+				if (v.Init == ast.Stmt(as) || v.Pos() > as.Pos()) && isFound(v.Cond) {
+					def.only = append(def.only, [2]token.Pos{v.Body.Pos(), v.Body.End()})
+				}
+			case *ast.BlockStmt:
+				// `if !OK { …; return … }` without else: OK holds in the rest of the block
+				for _, st := range v.List {
+					is, ok := st.(*ast.IfStmt)
+					if !ok || is.Else != nil || is.Pos() < as.Pos() || !addrAlwaysExits(is.Body.List) {
+						continue
+					}
+					if u, ok := addrStrip(is.Cond).(*ast.UnaryExpr); ok && u.Op == token.NOT && isFound(u.X) {
+						def.only = append(def.only, [2]token.Pos{is.End(), v.End()})
+					}
+				}
+			}
+			return true
+		})
+		e.alias[tail.Name] = def
+	}
+}
+
+// cutAlias3: `A, B, F := strings.Cut(S, SEP)` (SEP a non-empty string literal or constant; every named result defined
+// here and never written again) in terms of the older spellings: A is strings.Split(S, SEP)[0] (the text in front of the
+// first SEP, all of S when there is none), F is strings.Contains(S, SEP), and B — the text behind the first SEP, "" when
+// there is none — is printed as the pure pseudo-call strings.$CutAfter(S, SEP).
+func (e *addrEnv) cutAlias3(as *ast.AssignStmt, ce *ast.CallExpr, pk *ast.Ident) {
+	if len(as.Lhs) != 3 {
+		return
+	}
+	lit := e.constLit(ce.Args[1])
+	if lit == nil || lit.Kind != token.STRING || lit.Value == `""` || lit.Value == "``" || !e.pure(ce.Args[0]) {
+		return
+	}
+	free := addrFreeIdents(ce.Args[0])
+	call := func(name string) ast.Expr {
+		return &ast.CallExpr{Fun: &ast.SelectorExpr{X: pk, Sel: ast.NewIdent(name)}, Args: []ast.Expr{ce.Args[0], ce.Args[1]}}
+	}
+	rhs := []ast.Expr{
+		&ast.IndexExpr{X: call("Split"), Index: &ast.BasicLit{Kind: token.INT, Value: "0"}},
+		call("$CutAfter"),
+		call("Contains"),
+	}
+	for i, l := range as.Lhs {
+		id, ok := l.(*ast.Ident)
+		if !ok || id.Name == "_" || len(e.assigns[id.Name]) != 1 || e.subst[id.Name] != "" {
+			continue
+		}
+		e.alias[id.Name] = &addrAliasDef{pos: as.Pos(), free: free, rhs: rhs[i]}
+	}
 }
 
 // pure: literals, identifiers, selectors, index / slice expressions, operators, len / conversions, strings.* calls and
@@ -517,7 +649,7 @@ func (e *addrEnv) r(x ast.Expr, at token.Pos, prec, depth int) string {
 		if s, ok := e.subst[v.Name]; ok {
 			return s
 		}
-		if a := e.alias[v.Name]; a != nil && depth < 8 && at > a.pos {
+		if a := e.alias[v.Name]; a != nil && depth < 8 && a.validAt(at) {
 			usable := true
 			for _, f := range a.free {
 				if e.assignedBetween(f, a.pos, at) {
@@ -713,7 +845,7 @@ func addrFlattenIf(v *ast.IfStmt) []addrEv {
 func addrFlattenSwitch(v *ast.SwitchStmt) []addrEv {
 	opaque := append(addrSimple(v.Init), addrEv{kind: addrEvOther, node: v, at: v.Pos(), end: v.End()})
 	evs := addrSimple(v.Init)
-	var deflt *ast.CaseClause
+	var deflt, long *ast.CaseClause
 	emptySeen := false
 	for _, cs := range v.Body.List {
 		cc, ok := cs.(*ast.CaseClause)
@@ -729,6 +861,11 @@ func addrFlattenSwitch(v *ast.SwitchStmt) []addrEv {
 			continue
 		}
 		r := addrTerminates(cc.Body)
+		if r == nil && v.Tag != nil && long == nil && !emptySeen && len(cc.List) == 1 && addrAlwaysExits(cc.Body) {
+			// one clause of a tag switch may be a longer block that always returns: see below
+			long = cc
+			continue
+		}
 		if r == nil || (emptySeen && v.Tag == nil) {
 			return opaque
 		}
@@ -742,6 +879,19 @@ func addrFlattenSwitch(v *ast.SwitchStmt) []addrEv {
 		}
 		evs = append(evs, addrEv{kind: addrEvExit, leaves: leaves, ret: r, node: cc, at: cc.Pos(), end: cc.End()})
 	}
+	if long != nil {
+		// `switch T { case A: return a; case B: <block that always returns>; default: return d }` is
+		// `if T == A { return a }; if T != B { return d }; <block>` (case values are constants: the clauses exclude each other)
+		if emptySeen || deflt == nil || len(long.List) != 1 {
+			return opaque
+		}
+		r := addrTerminates(deflt.Body)
+		if r == nil {
+			return opaque
+		}
+		evs = append(evs, addrEv{kind: addrEvExit, leaves: []ast.Expr{&ast.BinaryExpr{X: v.Tag, Op: token.NEQ, Y: long.List[0]}}, ret: r, node: deflt, at: deflt.Pos(), end: deflt.End()})
+		return append(evs, addrFlatten(long.Body)...)
+	}
 	if deflt != nil && len(deflt.Body) > 0 {
 		r := addrTerminates(deflt.Body)
 		if r == nil {
@@ -750,6 +900,30 @@ func addrFlattenSwitch(v *ast.SwitchStmt) []addrEv {
 		evs = append(evs, addrEv{kind: addrEvExit, leaves: []ast.Expr{ast.NewIdent("$default")}, ret: r, node: deflt, at: deflt.Pos(), end: deflt.End(), deflt: true})
 	}
 	return evs
+}
+
+// addrAlwaysExits: the statement list ends in a return and holds no break / continue / goto / fallthrough / label, so
+// control cannot leave it any other way than by returning (it is used for the body of one switch clause).
+func addrAlwaysExits(list []ast.Stmt) bool {
+	if len(list) == 0 {
+		return false
+	}
+	if _, ok := list[len(list)-1].(*ast.ReturnStmt); !ok {
+		return false
+	}
+	ok := true
+	for _, s := range list {
+		ast.Inspect(s, func(n ast.Node) bool {
+			switch n.(type) {
+			case *ast.BranchStmt, *ast.LabeledStmt:
+				ok = false
+			case *ast.FuncLit:
+				return false
+			}
+			return ok
+		})
+	}
+	return ok
 }
 
 // addrReturns: every return statement of the body outside function literals.
@@ -785,7 +959,28 @@ func (e *addrEnv) resultTexts(r *ast.ReturnStmt) []string {
 
 // isAliasDef: the event is the `x := pure` definition of an expanded alias (invisible in the normal form).
 func (e *addrEnv) isAliasDef(ev addrEv) bool {
-	if ev.kind != addrEvAssign || ev.as.Tok != token.DEFINE || len(ev.as.Lhs) != 1 {
+	if ev.kind != addrEvAssign || ev.as.Tok != token.DEFINE {
+		return false
+	}
+	if len(ev.as.Lhs) >= 2 {
+		// `T, OK := strings.CutPrefix(S, LIT)` / `A, B, F := strings.Cut(S, SEP)`: every result that has a name must have become an alias
+		n := 0
+		for _, l := range ev.as.Lhs {
+			id, ok := l.(*ast.Ident)
+			if !ok {
+				return false
+			}
+			if id.Name == "_" {
+				continue
+			}
+			if a := e.alias[id.Name]; a == nil || a.pos != ev.as.Pos() {
+				return false
+			}
+			n++
+		}
+		return n > 0
+	}
+	if len(ev.as.Lhs) != 1 {
 		return false
 	}
 	id, ok := ev.as.Lhs[0].(*ast.Ident)
@@ -1213,66 +1408,442 @@ func (p *addrPolicy) addrCanonShape() (string, int, bool) {
 	return lit, n, true
 }
 
-// addrValidateTag: in ValidateDomainPart the argument of net.ParseIP is `$p0[S : len($p0)-1]` where the local S is
-// defined as 1 and set to N under `strings.HasPrefix($p0[1:], LIT)` and nowhere else.
-func (p *addrPolicy) addrValidateTag() (string, int, bool) {
-	fd := p.validate
-	if fd == nil || fd.Body == nil {
-		return "", 0, false
+// ---- the IPv6 tag of ValidateDomainPart: a small symbolic evaluation of the statements in front of net.ParseIP
+
+const (
+	vtUnknown = iota
+	vtInt
+	vtSlice
+)
+
+// vtVal: what a local of the IP-literal branch holds: an integer, or the slice `$p0[low:high]` of the parameter.  The
+// integer / the lower bound is the constant n, or cn where `cond` holds and n otherwise.  `under`: the value means
+// something only where that condition is known to hold (result 0 of strings.CutPrefix).
+type vtVal struct {
+	kind  int
+	n     int
+	cond  string
+	cn    int
+	high  string // canonical text of the upper bound, "" = to the end
+	under string
+}
+
+func (v vtVal) plain() bool { return v.kind != vtUnknown && v.cond == "" && v.under == "" }
+
+// text: an unconditional slice value as canonical Go text.
+func (v vtVal) text() string {
+	if v.kind != vtSlice || !v.plain() {
+		return "?"
 	}
-	env := addrNewEnv(p.pkg, fd)
-	var ipCalls []*ast.CallExpr
-	hasPrefix := 0
-	ast.Inspect(fd.Body, func(n ast.Node) bool {
-		if ce, ok := n.(*ast.CallExpr); ok {
-			switch env.render(ce.Fun, ce.Pos()) {
-			case "net.ParseIP":
-				ipCalls = append(ipCalls, ce)
-			case "strings.HasPrefix":
-				hasPrefix++
+	if v.n == 0 && v.high == "" {
+		return "$p0"
+	}
+	lo := ""
+	if v.n != 0 {
+		lo = strconv.Itoa(v.n)
+	}
+	return "$p0[" + lo + ":" + v.high + "]"
+}
+
+type vtEval struct {
+	env   *addrEnv
+	vals  map[string]vtVal
+	conds map[string]string // bool local (result 1 of strings.CutPrefix) -> canonical condition
+	nPfx  int               // prefix operations seen (HasPrefix / CutPrefix / TrimPrefix)
+}
+
+func (ev *vtEval) stringsCall(x ast.Expr, at token.Pos) (string, []ast.Expr) {
+	ce, ok := addrStrip(x).(*ast.CallExpr)
+	if !ok {
+		return "", nil
+	}
+	f := ev.env.render(ce.Fun, at)
+	if !strings.HasPrefix(f, "strings.") {
+		return "", nil
+	}
+	return strings.TrimPrefix(f, "strings."), ce.Args
+}
+
+func (ev *vtEval) litArg(x ast.Expr) (string, bool) {
+	l := ev.env.constLit(x)
+	if l == nil || l.Kind != token.STRING {
+		return "", false
+	}
+	s, err := strconv.Unquote(l.Value)
+	return s, err == nil
+}
+
+func (ev *vtEval) eval(x ast.Expr, at token.Pos) vtVal {
+	x = addrStrip(x)
+	if l := ev.env.constLit(x); l != nil && l.Kind == token.INT {
+		if k, err := strconv.ParseInt(l.Value, 0, 32); err == nil {
+			return vtVal{kind: vtInt, n: int(k)}
+		}
+		return vtVal{}
+	}
+	switch v := x.(type) {
+	case *ast.Ident:
+		if val, ok := ev.vals[v.Name]; ok {
+			return val
+		}
+		if ev.env.subst[v.Name] == "$p0" {
+			return vtVal{kind: vtSlice}
+		}
+		if a := ev.env.alias[v.Name]; a != nil && !a.restricted && a.validAt(at) {
+			for _, f := range a.free {
+				if ev.env.assignedBetween(f, a.pos, at) {
+					return vtVal{}
+				}
+				if _, tracked := ev.vals[f]; tracked {
+					return vtVal{}
+				}
+			}
+			return ev.eval(a.rhs, a.pos+1)
+		}
+	case *ast.SliceExpr:
+		if v.Slice3 {
+			return vtVal{}
+		}
+		base := ev.eval(v.X, at)
+		if base.kind != vtSlice || base.under != "" {
+			return vtVal{}
+		}
+		lo := vtVal{kind: vtInt}
+		if v.Low != nil {
+			lo = ev.eval(v.Low, at)
+		}
+		if lo.kind != vtInt || lo.under != "" || (lo.cond != "" && base.cond != "") {
+			return vtVal{}
+		}
+		res := vtVal{kind: vtSlice, n: base.n + lo.n, high: base.high}
+		switch {
+		case lo.cond != "":
+			res.cond, res.cn = lo.cond, base.n+lo.cn
+		case base.cond != "":
+			res.cond, res.cn = base.cond, base.cn+lo.n
+		}
+		if v.High != nil {
+			// an upper bound is understood only on the parameter itself (it counts from the start of the parameter)
+			if base.n != 0 || base.cond != "" || base.high != "" {
+				return vtVal{}
+			}
+			res.high = ev.env.render(v.High, at)
+		}
+		return res
+	case *ast.CallExpr:
+		if name, args := ev.stringsCall(v, at); name == "TrimPrefix" && len(args) == 2 {
+			ev.nPfx++
+			base := ev.eval(args[0], at)
+			lit, ok := ev.litArg(args[1])
+			if ok && base.kind == vtSlice && base.plain() {
+				return vtVal{kind: vtSlice, n: base.n, high: base.high, cond: "strings.HasPrefix(" + base.text() + ", " + strconv.Quote(lit) + ")", cn: base.n + len(lit)}
 			}
 		}
-		return true
-	})
-	if len(ipCalls) != 1 || hasPrefix != 1 || len(ipCalls[0].Args) != 1 {
-		return "", 0, false
 	}
-	se, ok := addrStrip(ipCalls[0].Args[0]).(*ast.SliceExpr)
-	if !ok || se.Slice3 || se.Low == nil || se.High == nil || env.render(se.X, se.Pos()) != "$p0" || env.render(se.High, se.Pos()) != "len($p0) - 1" {
-		return "", 0, false
+	return vtVal{}
+}
+
+// condText: the canonical text of a condition that is a prefix test of a slice of the parameter ("" otherwise).
+func (ev *vtEval) condText(x ast.Expr, at token.Pos) string {
+	x = addrStrip(x)
+	if id, ok := x.(*ast.Ident); ok {
+		return ev.conds[id.Name]
 	}
-	sv, ok := se.Low.(*ast.Ident)
-	if !ok || len(env.assigns[sv.Name]) != 2 {
-		return "", 0, false
+	if name, args := ev.stringsCall(x, at); name == "HasPrefix" && len(args) == 2 {
+		ev.nPfx++
+		base := ev.eval(args[0], at)
+		if lit, ok := ev.litArg(args[1]); ok && base.kind == vtSlice && base.plain() {
+			return "strings.HasPrefix(" + base.text() + ", " + strconv.Quote(lit) + ")"
+		}
 	}
-	lit, n, found, defOK := "", 0, false, false
-	ast.Inspect(fd.Body, func(x ast.Node) bool {
-		switch v := x.(type) {
+	return ""
+}
+
+// forget: every local written anywhere inside n is unknown from here on.
+func (ev *vtEval) forget(n ast.Node) {
+	mark := func(x ast.Expr) {
+		if id, ok := x.(*ast.Ident); ok && id.Name != "_" {
+			ev.vals[id.Name] = vtVal{}
+			delete(ev.conds, id.Name)
+		}
+	}
+	ast.Inspect(n, func(m ast.Node) bool {
+		switch v := m.(type) {
 		case *ast.AssignStmt:
-			if v.Tok == token.DEFINE && len(v.Lhs) == 1 && len(v.Rhs) == 1 && src(v.Lhs[0]) == sv.Name && env.render(v.Rhs[0], v.Pos()) == "1" && v.Pos() < se.Pos() {
-				defOK = true
+			for _, l := range v.Lhs {
+				mark(l)
 			}
-		case *ast.IfStmt:
-			if v.Init != nil || v.Else != nil || len(v.Body.List) != 1 || v.End() > ipCalls[0].Pos() {
-				return true
+		case *ast.IncDecStmt:
+			mark(v.X)
+		case *ast.RangeStmt:
+			if v.Key != nil {
+				mark(v.Key)
 			}
-			as, ok := v.Body.List[0].(*ast.AssignStmt)
-			if !ok || as.Tok != token.ASSIGN || len(as.Lhs) != 1 || len(as.Rhs) != 1 || src(as.Lhs[0]) != sv.Name {
-				return true
+			if v.Value != nil {
+				mark(v.Value)
 			}
-			m := addrReHasPrefix.FindStringSubmatch(env.render(v.Cond, v.Cond.Pos()))
-			if m == nil || m[1] != "" || m[2] != "$p0[1:]" {
-				return true
+		case *ast.ValueSpec:
+			for _, nm := range v.Names {
+				mark(nm)
 			}
-			l, err := strconv.Unquote(m[3])
-			k, err2 := strconv.Atoi(env.render(as.Rhs[0], as.Pos()))
-			if err == nil && err2 == nil {
-				lit, n, found = l, k, true
+		case *ast.UnaryExpr:
+			if v.Op == token.AND {
+				mark(v.X)
+			}
+		case *ast.CallExpr:
+			if name, _ := ev.stringsCall(v, v.Pos()); name == "HasPrefix" || name == "CutPrefix" || name == "TrimPrefix" {
+				ev.nPfx++
 			}
 		}
 		return true
 	})
-	return lit, n, found && defOK
+}
+
+// oneAssign: the block is exactly `V = E`.
+func vtOneAssign(b *ast.BlockStmt) (string, ast.Expr, bool) {
+	if b == nil || len(b.List) != 1 {
+		return "", nil, false
+	}
+	as, ok := b.List[0].(*ast.AssignStmt)
+	if !ok || as.Tok != token.ASSIGN || len(as.Lhs) != 1 || len(as.Rhs) != 1 {
+		return "", nil, false
+	}
+	id, ok := as.Lhs[0].(*ast.Ident)
+	if !ok || id.Name == "_" {
+		return "", nil, false
+	}
+	return id.Name, as.Rhs[0], true
+}
+
+func (ev *vtEval) step(st ast.Stmt) {
+	switch v := st.(type) {
+	case nil:
+		return
+	case *ast.ExprStmt, *ast.EmptyStmt:
+		return
+	case *ast.AssignStmt:
+		if v.Tok == token.DEFINE && len(v.Lhs) == 2 && len(v.Rhs) == 1 {
+			if name, args := ev.stringsCall(v.Rhs[0], v.Pos()); name == "CutPrefix" && len(args) == 2 {
+				ev.nPfx++
+				base := ev.eval(args[0], v.Pos())
+				lit, ok := ev.litArg(args[1])
+				tail, ok0 := v.Lhs[0].(*ast.Ident)
+				found, ok1 := v.Lhs[1].(*ast.Ident)
+				if ok && ok0 && ok1 && found.Name != "_" && base.kind == vtSlice && base.plain() {
+					c := "strings.HasPrefix(" + base.text() + ", " + strconv.Quote(lit) + ")"
+					ev.conds[found.Name] = c
+					if tail.Name != "_" {
+						ev.vals[tail.Name] = vtVal{kind: vtSlice, n: base.n + len(lit), high: base.high, under: c}
+					}
+					return
+				}
+			}
+		}
+		if len(v.Lhs) == 1 && len(v.Rhs) == 1 && (v.Tok == token.DEFINE || v.Tok == token.ASSIGN) {
+			if id, ok := v.Lhs[0].(*ast.Ident); ok && id.Name != "_" {
+				if a := ev.env.alias[id.Name]; a != nil && a.pos == v.Pos() {
+					return // expanded where it is used
+				}
+				val := ev.eval(v.Rhs[0], v.Pos())
+				if val.under != "" {
+					val = vtVal{}
+				}
+				ev.vals[id.Name] = val
+				delete(ev.conds, id.Name)
+				return
+			}
+		}
+		ev.forget(v)
+	case *ast.IfStmt:
+		ev.step(v.Init)
+		name, e, ok := vtOneAssign(v.Body)
+		var elseE ast.Expr
+		if ok && v.Else != nil {
+			eb, isBlock := v.Else.(*ast.BlockStmt)
+			n2, e2, ok2 := vtOneAssign(eb)
+			ok = isBlock && ok2 && n2 == name
+			elseE = e2
+		}
+		if !ok {
+			ev.forget(v.Body)
+			if v.Else != nil {
+				ev.forget(v.Else)
+			}
+			return
+		}
+		c := ev.condText(v.Cond, v.Cond.Pos())
+		then := ev.eval(e, e.Pos())
+		if then.under != "" && then.under == c {
+			then.under = ""
+		}
+		other := ev.vals[name]
+		if elseE != nil {
+			other = ev.eval(elseE, elseE.Pos())
+		}
+		if c == "" || !then.plain() || !other.plain() || then.kind != other.kind || then.high != other.high {
+			ev.vals[name] = vtVal{}
+			return
+		}
+		ev.vals[name] = vtVal{kind: then.kind, n: other.n, cond: c, cn: then.n, high: then.high}
+	default:
+		ev.forget(st)
+	}
+}
+
+// run executes the statements in front of the one that holds `target`, descending into the block that holds it.
+func (ev *vtEval) run(list []ast.Stmt, target ast.Node) bool {
+	holds := func(n ast.Node) bool { return n != nil && n.Pos() <= target.Pos() && target.End() <= n.End() }
+	for _, st := range list {
+		if !holds(st) {
+			ev.step(st)
+			continue
+		}
+		switch v := st.(type) {
+		case *ast.BlockStmt:
+			return ev.run(v.List, target)
+		case *ast.IfStmt:
+			ev.step(v.Init)
+			if holds(v.Body) {
+				return ev.run(v.Body.List, target)
+			}
+			if eb, ok := v.Else.(*ast.BlockStmt); ok && holds(eb) {
+				return ev.run(eb.List, target)
+			}
+			if ei, ok := v.Else.(*ast.IfStmt); ok && holds(ei) {
+				return ev.run([]ast.Stmt{ei}, target)
+			}
+			return !holds(v.Init) // in the condition itself
+		case *ast.SwitchStmt:
+			ev.step(v.Init)
+			for _, c := range v.Body.List {
+				if cc, ok := c.(*ast.CaseClause); ok && holds(cc) {
+					for _, s := range cc.Body {
+						if holds(s) {
+							return ev.run(cc.Body, target)
+						}
+					}
+				}
+			}
+			return false
+		case *ast.ForStmt, *ast.RangeStmt, *ast.SelectStmt, *ast.TypeSwitchStmt, *ast.LabeledStmt, *ast.GoStmt, *ast.DeferStmt:
+			return false
+		}
+		return true // a simple statement holds the target
+	}
+	return false
+}
+
+func addrAndLeaves(x ast.Expr) []ast.Expr {
+	x = addrStrip(x)
+	if be, ok := x.(*ast.BinaryExpr); ok && be.Op == token.LAND {
+		return append(addrAndLeaves(be.X), addrAndLeaves(be.Y)...)
+	}
+	return []ast.Expr{x}
+}
+
+var addrReTagCond = regexp.MustCompile(`^strings\.HasPrefix\((\$p0\[1:\]|\$p0\[1:len\(\$p0\) - 1\]), ("(?:[^"\\]|\\.)*")\)$`)
+
+// addrValidateTag: ValidateDomainPart (parameter D) hands net.ParseIP the text D[a : len(D)-1] where a is 1, or N when
+// the text after the opening bracket starts with LIT: (LIT, N).  The code in front of the one net.ParseIP call is
+// evaluated symbolically (vtEval), so these are all the same fact:
+//
+//	s := 1; if strings.HasPrefix(D[1:], LIT) { s = N }; net.ParseIP(D[s : len(D)-1])
+//	t := D[1 : len(D)-1]; if r, ok := strings.CutPrefix(t, LIT); ok { t = r }; net.ParseIP(t)          (N = 1 + len(LIT))
+//	t := D[1 : len(D)-1]; if strings.HasPrefix(t, LIT) { t = t[len(LIT):] }; …    t = strings.TrimPrefix(t, LIT); …
+//
+// in ValidateDomainPart itself or in an unexported (string) helper it calls once with D.  Testing the prefix on
+// D[1 : len(D)-1] instead of D[1:] is the same test only where D[len(D)-1] == ']' is known and LIT does not end in ']'
+// (they differ exactly for D = "[" + LIT): that form is accepted only under an `if … && D[len(D)-1] == ']'`.
+func (p *addrPolicy) addrValidateTag() (string, int, bool) {
+	vd := p.validate
+	if vd == nil || vd.Body == nil || len(addrParamNames(vd.Type.Params)) != 1 {
+		return "", 0, false
+	}
+	// the one net.ParseIP call of ValidateDomainPart and the unexported functions it calls
+	var ipCall *ast.CallExpr
+	var host *ast.FuncDecl
+	nIP := 0
+	for _, f := range addrClosure(p.pkg, vd) {
+		if f.Body == nil {
+			continue
+		}
+		fenv := addrNewEnv(p.pkg, f)
+		ast.Inspect(f.Body, func(n ast.Node) bool {
+			if ce, ok := n.(*ast.CallExpr); ok && fenv.render(ce.Fun, ce.Pos()) == "net.ParseIP" {
+				nIP++
+				ipCall, host = ce, f
+			}
+			return true
+		})
+	}
+	if nIP != 1 || len(ipCall.Args) != 1 {
+		return "", 0, false
+	}
+	venv := addrNewEnv(p.pkg, vd)
+	var site ast.Node = ipCall // the place in ValidateDomainPart whose guards count
+	if host != vd {
+		// `H(D)`, H taking one never-written string parameter, called exactly once from ValidateDomainPart
+		if hp := addrParamNames(host.Type.Params); len(hp) != 1 || hp[0] == "_" || len(addrTypes(host.Type.Params)) != 1 || addrTypes(host.Type.Params)[0] != "string" {
+			return "", 0, false
+		}
+		calls := 0
+		ast.Inspect(vd.Body, func(n ast.Node) bool {
+			if ce, ok := n.(*ast.CallExpr); ok && addrCallee(p.pkg, ce) == host {
+				calls++
+				if len(ce.Args) == 1 && venv.render(ce.Args[0], ce.Pos()) == "$p0" {
+					site = ce
+				}
+			}
+			return true
+		})
+		if calls != 1 || site == ast.Node(ipCall) {
+			return "", 0, false
+		}
+	}
+	// the parameter still holds the caller's string at the call(s)
+	if venv.assignedBetween(addrParamNames(vd.Type.Params)[0], vd.Body.Pos(), site.End()) {
+		return "", 0, false
+	}
+	henv := venv
+	if host != vd {
+		henv = addrNewEnv(p.pkg, host)
+		if henv.assignedBetween(addrParamNames(host.Type.Params)[0], host.Body.Pos(), ipCall.End()) {
+			return "", 0, false
+		}
+	}
+	ev := &vtEval{env: henv, vals: map[string]vtVal{}, conds: map[string]string{}}
+	if !ev.run(host.Body.List, ipCall) {
+		return "", 0, false
+	}
+	arg := ev.eval(ipCall.Args[0], ipCall.Pos())
+	if arg.kind != vtSlice || arg.under != "" || arg.cond == "" || arg.n != 1 || arg.high != "len($p0) - 1" || ev.nPfx != 1 {
+		return "", 0, false
+	}
+	m := addrReTagCond.FindStringSubmatch(arg.cond)
+	if m == nil {
+		return "", 0, false
+	}
+	lit, err := strconv.Unquote(m[2])
+	if err != nil || lit == "" {
+		return "", 0, false
+	}
+	if m[1] != "$p0[1:]" {
+		guarded := false
+		ast.Inspect(vd.Body, func(n ast.Node) bool {
+			if is, ok := n.(*ast.IfStmt); ok && is.Body.Pos() <= site.Pos() && site.End() <= is.Body.End() {
+				for _, l := range addrAndLeaves(is.Cond) {
+					if venv.render(l, is.Cond.Pos()) == "$p0[len($p0) - 1] == ']'" {
+						guarded = true
+					}
+				}
+			}
+			return true
+		})
+		if !guarded || strings.HasSuffix(lit, "]") {
+			return "", 0, false
+		}
+	}
+	return lit, arg.cn, true
 }
 
 // ------------------------------------------------------------------------------------------------ tables of Gen/Addr.lean
@@ -1945,6 +2516,13 @@ func addr2Pop3Verbatim(pk *addrPkg) bool {
 	if !trimOK {
 		return false
 	}
+	const w = `strings.Split($p0, " ")`
+	const wHead = "strings.ToUpper(" + w + "[0])"
+	// the strings.Cut spelling of the same pair (addrEnv.cutAlias3): W[0] is the text in front of the first space, W[1:] is
+	// the empty list when there is no space and strings.Split(<text behind it>, " ") when there is one
+	const cutEmpty, cutRest = "?{[]string{}}", `strings.Split(strings.$CutAfter($p0, " "), " ")`
+	const hasSpace = `strings.Contains($p0, " ")`
+	cutForm := false
 	for _, r := range addrReturns(parser.Body) {
 		if len(r.Results) != 2 {
 			return false
@@ -1953,12 +2531,50 @@ func addr2Pop3Verbatim(pk *addrPkg) bool {
 		if t[0] == `""` && t[1] == "nil" {
 			continue
 		}
-		w := `strings.Split($p0, " ")`
-		if t[0] == "strings.ToUpper("+w+"[0])" && t[1] == w+"[1:]" {
+		if t[0] == wHead && t[1] == w+"[1:]" {
 			splitOK = true
 			continue
 		}
+		if t[0] == wHead && (t[1] == cutEmpty || t[1] == cutRest) {
+			cutForm = true
+			continue
+		}
 		return false
+	}
+	if cutForm {
+		// the two returns of the Cut spelling must sit under the right guards: flatten the body into guarded exits
+		sawEmpty, sawRest := false, false
+		for _, ev := range addrFlatten(parser.Body.List) {
+			if penv.isNoise(ev) {
+				continue
+			}
+			if ev.kind == addrEvAssign && len(ev.as.Lhs) == 1 && src(ev.as.Lhs[0]) == line {
+				continue // the trimming assignment checked above
+			}
+			if ev.kind != addrEvExit || len(ev.ret.Results) != 2 {
+				return false
+			}
+			t, g := penv.resultTexts(ev.ret), penv.leafTexts(ev)
+			switch {
+			case t[0] == `""` && t[1] == "nil", t[0] == wHead && t[1] == w+"[1:]":
+			case t[0] == wHead && t[1] == cutEmpty:
+				if !(len(g) == 1 && g[0] == "!"+hasSpace) && !(len(g) == 0 && sawRest) {
+					return false
+				}
+				sawEmpty = true
+			case t[0] == wHead && t[1] == cutRest:
+				if !(len(g) == 1 && g[0] == hasSpace) && !(len(g) == 0 && sawEmpty) {
+					return false
+				}
+				sawRest = true
+			default:
+				return false
+			}
+		}
+		if !sawEmpty || !sawRest {
+			return false
+		}
+		splitOK = true
 	}
 	return allPlain && total >= 1 && argsKept && inUser == 1 && splitOK
 }
@@ -2116,13 +2732,14 @@ func extractAddr2() {
 	cdLit, cdN, cdOK := p.addrCanonShape()
 	g.def("canonicalDomainShape", "Option (String × Nat)", optStrNat(cdLit, cdN, cdOK),
 		"canonicalDomain (= the one (string) string helper both naming returns go through; parameter D) is \"LIT + strings.ToLower(D[N:]) when strings.HasPrefix(D, LIT), "+
-			"strings.ToLower(D) otherwise\" in any if / else / switch arrangement: (LIT, N)")
+			"strings.ToLower(D) otherwise\" in any if / else / switch arrangement: (LIT, N); `T, ok := strings.CutPrefix(D, LIT)` counts as HasPrefix(D, LIT) and, under ok, D[len(LIT):]")
 	g.def("canonicalDomainLit", "Option (List Nat)", optBytes(cdLit, cdOK), "bytes of that LIT")
 
 	vtLit, vtN, vtOK := p.addrValidateTag()
 	g.def("validateTag", "Option (String × Nat)", optStrNat(vtLit, vtN, vtOK),
-		"ValidateDomainPart (parameter D): the argument of the one net.ParseIP call is D[S : len(D)-1] where the local S is defined as 1 and is set to N under the one "+
-			"`strings.HasPrefix(D[1:], LIT)` and nowhere else: (LIT, N)")
+		"ValidateDomainPart (parameter D), or the unexported helper it hands D to: the argument of the one net.ParseIP call is the text D[a : len(D)-1] where a is N when the text "+
+			"behind the opening bracket starts with LIT and 1 otherwise — found by evaluating the statements in front of the call symbolically, so an offset variable set under "+
+			"strings.HasPrefix(D[1:], LIT), a text variable cut with strings.CutPrefix / TrimPrefix / HasPrefix + slice (N = 1 + len(LIT)) are the same fact: (LIT, N)")
 	g.def("validateTagLit", "Option (List Nat)", optBytes(vtLit, vtOK), "bytes of that LIT")
 
 	// ---- 4. name-shape test of ExtractMailbox and the naming returns
@@ -2172,5 +2789,6 @@ func extractAddr2() {
 	g.def("pop3UserVerbatim", "Bool", leanBool(addr2Pop3Verbatim(ppk)),
 		"pkg/server/pop3: the session field handed to GetMessages (the mailbox key) is only ever assigned `A[0]`, inside the handler that has the USER clause (once in that clause), "+
 			"where A is that handler's never-written []string parameter; A is result 1 of the command parser at every call of the handler, and the parser returns "+
-			"(strings.ToUpper(W[0]), W[1:]) for W = strings.Split(line, \" \") after at most trimming CR / LF")
+			"(strings.ToUpper(W[0]), W[1:]) for W = strings.Split(line, \" \") after at most trimming CR / LF (or the strings.Cut spelling of that pair: the text in front of the "+
+			"first space, and the empty list without a space / strings.Split of the text behind it with one)")
 }
